@@ -129,6 +129,17 @@ theorem immediate_response_count (cfg : Config) (x : Ctx) (c : Nat) (req : Json)
 
 example : Answerable Ex.infoReq := Ex.answerable_of_bool (by decide +kernel)
 
+/-- Only "set" and "call" are ever handed to another peer: for every other method name the
+    "accepted routed" exception of `immediate_discipline` does not arise, so a request with a
+    string/number id gets exactly one response. -/
+theorem only_set_call_are_routed (cfg : Config) (x : Ctx) (c : Nat) (req : Json) (m : Bytes)
+    (hm : req.getItem (k "method") = some (.str m))
+    (hs : (m == k "set") = false) (hc : (m == k "call") = false)
+    (new : List Obs) (hnew : (parseJsonRpc cfg x c req).1.out = new ++ x.out) : ¬ AcceptedRouted new :=
+  not_routed_of_other_method cfg x c req m hm hs hc new hnew
+
+example : (k "info" == k "set") = false ∧ (k "info" == k "call") = false := ⟨by decide +kernel, by decide +kernel⟩
+
 /-! ## 3. responses never reach another connection, except as the answer of a routed request -/
 
 /-- In a `.message c …` operation a response object is written to a connection `d ≠ c` only as the
@@ -309,5 +320,75 @@ example : (findPeer Ex.sRouted.peers 1).isSome = true ∧
     (parseJsonRpc {} (mkCtx Ex.sRouted {}) 1 Ex.infoReq).2 = true ∧
     restOracle (parseJsonRpc {} (mkCtx Ex.sRouted {}) 1 Ex.infoReq).1 = {} :=
   ⟨by decide +kernel, by decide +kernel, by decide +kernel⟩
+
+/-! ## 6. at most one final answer per routed request (joint with C03) -/
+
+/-- A relay consumes its routing record: under `RoutesOwned` (true in every reachable state) no record
+    with the same owner and rid is left after the response object has been processed. -/
+theorem relay_removes_route (cfg : Config) (x : Ctx) (c : Nat) (p : Peer) (req : Json)
+    (hp : findPeer x.st.peers c = some p) (hm : req.getItem (k "method") = none)
+    (hre : (req.getItem (k "result")).isSome = true ∨ (req.getItem (k "error")).isSome = true)
+    (hinv : RoutesOwned x.st.peers)
+    (new : List Obs) (hnew : (parseJsonRpc cfg x c req).1.out = new ++ x.out)
+    (d : Nat) (j : Json) (b : Bool) (hsend : Obs.send d j b ∈ new) :
+    ∃ r ∈ p.routes, IsRelayOf r req d j ∧ r.owner = c ∧
+      ∀ q ∈ (parseJsonRpc cfg x c req).1.st.peers, ∀ r' ∈ q.routes, ¬ (r'.owner = r.owner ∧ r'.rid = r.rid) := by
+  obtain ⟨new', hnew', _, hcl⟩ := responses_never_answered cfg x c p req hp hm hre
+  have : new = new' := List.append_cancel_right (hnew.symm.trans hnew')
+  subst this
+  obtain ⟨r, hr, hrel, hst⟩ := hcl d j b hsend
+  have hown : r.owner = c := (hinv p (findPeer_mem hp) r hr).trans (findPeer_conn hp)
+  refine ⟨r, hr, hrel, hown, ?_⟩
+  rw [hst, hown]
+  exact removeRoute_gone hinv c r.rid
+
+/-- A response object whose id matches no record of the sender's own table is dropped silently: a
+    record that has been removed is never answered again. -/
+theorem unknown_id_not_answered (cfg : Config) (x : Ctx) (c : Nat) (p : Peer) (req : Json)
+    (hp : findPeer x.st.peers c = some p) (hm : req.getItem (k "method") = none)
+    (hre : (req.getItem (k "result")).isSome = true ∨ (req.getItem (k "error")).isSome = true)
+    (hno : ∀ r ∈ p.routes, req.getItem (k "id") ≠ some (.str r.rid))
+    (new : List Obs) (hnew : (parseJsonRpc cfg x c req).1.out = new ++ x.out) : sendsOf new = [] := by
+  obtain ⟨new', hnew', _, hcl⟩ := responses_never_answered cfg x c p req hp hm hre
+  have : new = new' := List.append_cancel_right (hnew.symm.trans hnew')
+  subst this
+  have hnone : ∀ o ∈ new, ∀ d j b, o ≠ Obs.send d j b := by
+    intro o ho d j b heq
+    subst heq
+    obtain ⟨r, hr, hrel, _⟩ := hcl d j b ho
+    exact hno r hr hrel.2.1
+  exact sendsOf_nil_of_no_send hnone
+
+example : (∃ p, findPeer (mkCtx Ex.sRouted {}).st.peers 2 = some p) ∧ Ex.replyA.getItem (k "method") = none ∧
+    (Ex.replyA.getItem (k "result")).isSome = true :=
+  ⟨Option.isSome_iff_exists.1 (by decide +kernel), Option.isNone_iff_eq_none.1 (by decide +kernel),
+    by decide +kernel⟩
+
+/-- The invariant of the ledger (`RoutesOwned` and pairwise distinct connection numbers) holds in
+    every state reachable from an initial state with an arbitrary user table. -/
+theorem ledger_invariant_reachable (cfg : Config) (us : List User) (ops : List Op) :
+    Inv (run cfg { users := us } ops).1 :=
+  run_inv cfg ops _ (inv_init us)
+
+/-- The ledger of one operation: the response objects sent, plus the routing records that still
+    owe an answer afterwards, are covered by the records that owed one before plus the request
+    objects with a string/number id delivered by this operation.  Since a request object gets at
+    most one immediate response (`immediate_response_count`), every further response consumes a
+    record that owed an answer — a record is answered at most once. -/
+theorem final_answer_ledger (cfg : Config) (s : State) (op : Op) (h : Inv s) :
+    respCount (step cfg s op).2 + pendingA (step cfg s op).1.peers ≤ pendingA s.peers + opReqN op :=
+  step_ledger cfg s op h
+
+example : Inv Ex.sRouted := run_inv {} Ex.setup _ (inv_init [])
+
+/-- Over any run from the initial state: the number of response objects the daemon sends (to
+    anybody, immediate answers, relays, timeout and shutdown answers together) never exceeds the
+    number of request objects with a string/number id it was given; the difference covers at least
+    the routed requests still pending at the end. -/
+theorem at_most_one_final_answer (cfg : Config) (us : List User) (ops : List Op) :
+    totalResp (run cfg { users := us } ops).2 + pendingA (run cfg { users := us } ops).1.peers ≤
+      (ops.map opReqN).sum := by
+  have := run_ledger cfg ops { users := us } (inv_init us)
+  simpa [pendingA] using this
 
 end Cjet.Daemon.C02
